@@ -331,6 +331,29 @@ def run_laws(res: Result, layer, v: Vec, vsys, w: Vec, tier, only=None):
 
     law("wrong_dimension_rejected", "typeerror", f_typeerr, {"kind": "typeerror"})
 
+    # ---------------------------------------------------------------- the zero boost is the identity (velocity 0, booster at rest, gamma 1)
+    zero3 = Vec("zero3", (0.0, 0.0, 0.0), {"zero"})
+    rest4 = Vec("rest4", (0.0, 0.0, 0.0, 2.5), {"at_rest"})
+    scale0 = W.scale_of(v, w)
+    spellings = []
+    for zs in (("xy", "z"), ("rhophi", "z")):
+        spellings += [(f"boost_beta3(0)[{L.sysname(zs)}]", lambda V, zs=zs: V.boost_beta3(W.mk(layer, zero3, zs))), (f"boost(0 velocity)[{L.sysname(zs)}]", lambda V, zs=zs: V.boost(W.mk(layer, zero3, zs))),
+                      (f"boostCM_of_beta3(0)[{L.sysname(zs)}]", lambda V, zs=zs: V.boostCM_of_beta3(W.mk(layer, zero3, zs)))]
+    for rs in (("xy", "z", "t"), ("xy", "z", "tau"), ("rhophi", "z", "t"), ("rhophi", "z", "tau")):
+        spellings += [(f"boost_p4(at rest)[{L.sysname(rs)}]", lambda V, rs=rs: V.boost_p4(W.mk(layer, rest4, rs))), (f"boost(at rest)[{L.sysname(rs)}]", lambda V, rs=rs: V.boost(W.mk(layer, rest4, rs))),
+                      (f"boostCM_of_p4(at rest)[{L.sysname(rs)}]", lambda V, rs=rs: V.boostCM_of_p4(W.mk(layer, rest4, rs)))]
+    for ax in "XYZ":
+        spellings += [(f"boost{ax}(beta=0)", lambda V, ax=ax: getattr(V, "boost" + ax)(beta=n(0.0))), (f"boost{ax}(gamma=1)", lambda V, ax=ax: getattr(V, "boost" + ax)(gamma=n(1.0)))]
+    for sname, fn_ in spellings:
+        def f_id(fn_=fn_):
+            V = W.mk(layer, v, vsys)
+            r = fn_(V)
+            if not W.vclose(W.cart(r), W.cart(V), scale0, layer):
+                return f"the result {[mpmath.nstr(W.sc(c), 17) for c in W.cart(r)]} is not the boosted vector itself {[mpmath.nstr(W.sc(c), 17) for c in W.cart(V)]}"
+            return None
+
+        law("zero_boost_is_identity", sname, f_id, {"kind": "identity", "spelling": sname})
+
 
 def representable_tau(g, layer):
     return g[3] >= 0
